@@ -112,6 +112,8 @@ class Ctx:
         self.digests = set()
         self.samples = []
         self.failure = None
+        self.failure_input = None
+        self.failure_msg = ""
         self.regressions_replayed = 0
         self.notes = []
         base = None
@@ -173,12 +175,20 @@ class Ctx:
     def exec_case(self, case, run_case):
         """Run one case through run_case and account for it; raise Failure on a violation."""
         if self.over_budget() and not self.replaying:
+            # Hypothesis re-executes a failing example while shrinking and for the final report:
+            # keep the verdict for the recorded failing input stable, skip everything else.
+            if self.failure is not None and canon(case) == self.failure_input:
+                raise Failure(self.failure_msg)
             self.skipped += 1
             return None
         self.evaluations += 1
         try:
             res = run_case(case, self)
-        except (Failure, HarnessError, KeyboardInterrupt):
+        except Failure as exc:
+            self.failure_input = canon(case)
+            self.failure_msg = str(exc)
+            raise
+        except (HarnessError, KeyboardInterrupt):
             raise
         except Exception as exc:  # noqa: BLE001
             fr = product_frame(exc)
@@ -194,7 +204,9 @@ class Ctx:
         unknown = self.split_known(res.violations)
         if unknown:
             self.failure = {"case": case, "violations": [v.to_json() for v in unknown]}
-            raise Failure("; ".join(f"[{v.sig}] {v.msg}" for v in unknown))
+            self.failure_input = canon(case)
+            self.failure_msg = "; ".join(f"[{v.sig}] {v.msg}" for v in unknown)
+            raise Failure(self.failure_msg)
         return res
 
     # ---- Hypothesis drivers --------------------------------------------------------------
